@@ -18,7 +18,7 @@ print("violations_total", st.counters.get("violations_total"))
 groups = collections.Counter()
 ex1 = {}
 for v in st.violations:
-    k = tuple((kk, str(v[kk])) for kk in sorted(v) if kk not in ("summary", "case", "operands"))
+    k = tuple((kk, str(v[kk])) for kk in sorted(v) if kk not in ("summary", "case", "operands", "template", "expected_error", "observed_error"))
     groups[k] += 1; ex1.setdefault(k, v)
 for k, c in groups.most_common(40):
-    print(c, dict(k)); print("      ", ex1[k]["summary"][:600].replace("\n", "\n       "))
+    print(c, dict(k)); print("      ", ex1[k]["summary"][:int(os.environ.get("W","600"))].replace("\n", "\n       "))
